@@ -9,6 +9,7 @@ use librqbit_utp::verif as v;
 
 mod comp_rtte;
 mod comp_rx;
+mod comp_segs;
 mod comp_seqnr;
 mod util;
 
@@ -16,6 +17,7 @@ const DISPATCHERS: &[fn(&[&str]) -> Option<String>] = &[
     comp_seqnr::dispatch,
     comp_rtte::dispatch,
     comp_rx::dispatch,
+    comp_segs::dispatch,
 ];
 
 fn run_consts() -> String {
